@@ -142,7 +142,51 @@ func points() []point {
 
 			return e
 		}},
+		// points with a special coordinate: a fast path keyed on "this coordinate is 1" (mixed addition when Z = 1,
+		// say) is taken for ordinary points at scalar-independent places only, but a point whose affine y or x is 1
+		// makes intermediate ladder registers look "affine" depending on the scalar
+		{"affine point with y = 1", func() *secp256k1.Element { return rawElement(pointWithY1(), big.NewInt(1)) }},
+		{"decoded point with y = 1", func() *secp256k1.Element {
+			e := secp256k1.NewElement()
+			_ = e.Decode(ref.EncUncompressed(pointWithY1()))
+
+			return e
+		}},
+		{"affine point with x = 1", func() *secp256k1.Element { return rawElement(pointWithX1(), big.NewInt(1)) }},
+		{"G with Z stored as the limbs {1,0,0,0}", func() *secp256k1.Element {
+			return rawElement(ref.G(), ref.Unmont([4]uint64{1, 0, 0, 0}, ref.P))
+		}},
+		{"point with y = 1 scaled by 2^128+5", func() *secp256k1.Element {
+			return rawElement(pointWithY1(), new(big.Int).Add(new(big.Int).Lsh(big.NewInt(1), 128), big.NewInt(5)))
+		}},
 	}
+}
+
+// pointWithY1 returns the curve point (cbrt(-6), 1): x^3 + 7 = 1. p = 7 mod 9, so a cube root of a cubic residue a
+// is a^((p+2)/9).
+func pointWithY1() ref.Pt {
+	a := ref.Fp.Neg(big.NewInt(6))
+	e := new(big.Int).Div(new(big.Int).Add(ref.P, big.NewInt(2)), big.NewInt(9))
+	x := ref.Fp.Exp(a, e)
+	pt := ref.Pt{X: x, Y: big.NewInt(1)}
+
+	if !ref.Secp.On(pt) {
+		panic("tracechk: no point with y = 1")
+	}
+
+	return pt
+}
+
+// pointWithX1 returns a curve point (1, sqrt(8)).
+func pointWithX1() ref.Pt {
+	y := ref.Fp.Sqrt(big.NewInt(8))
+	pt := ref.Pt{X: big.NewInt(1), Y: y}
+
+	if y == nil || !ref.Secp.On(pt) {
+		panic("tracechk: no point with x = 1")
+	}
+
+	return pt
 }
 
 // traceMultiply runs Multiply(k) on a fresh copy of the point with the recorder on.
@@ -287,7 +331,7 @@ func C19(r *ev.Report) {
 	ks := c19Scalars(ev.Thorough())
 	pts := points()
 
-	r.Rule("instrumented build (verifrt.Enter at every function entry of the three packages): for each of 14 fixed points (G, a re-scaled 2G, a non-canonical identity, the zero value of the Element type, Base(), and points with a history: encoded before, copied or Set from an encoded point, used in Equal / as an Add argument, decoded, hashed, produced by a previous Multiply) the sequence of internal/field function entries during Multiply(k) is compared (incremental hash + length; full re-recording on mismatch) with the sequence for k = 0, for every k of the alphabet: all scalars within 1 (thorough: 2) bit-deviations of 0 and of n-1, 0..64, the boundary alphabet K (2^i+-1, n-1-2^i, around n/2 and 2^255, limb products); k = 1 is the documented shortcut and excluded; non-trivial = all (distinct scalars)")
+	r.Rule("instrumented build (verifrt.Enter at every function entry of the three packages): for each of 19 fixed points (G, a re-scaled 2G, points whose affine y or x is 1 and G with Z stored as the limbs {1,0,0,0}, a non-canonical identity, the zero value of the Element type, Base(), and points with a history: encoded before, copied or Set from an encoded point, used in Equal / as an Add argument, decoded, hashed, produced by a previous Multiply) the sequence of internal/field function entries during Multiply(k) is compared (incremental hash + length; full re-recording on mismatch) with the sequence for k = 0, for every k of the alphabet: all scalars within 1 (thorough: 2) bit-deviations of 0 and of n-1, 0..64, the boundary alphabet K (2^i+-1, n-1-2^i, around n/2 and 2^255, limb products); k = 1 is the documented shortcut and excluded; non-trivial = all (distinct scalars)")
 	r.Bound("scalars", len(ks))
 	r.Bound("points", len(pts))
 	r.Bound("instrumented_functions", len(verifrt.Names))
